@@ -399,7 +399,7 @@ def wf(r, opened=frozenset()):
 
 
 def translate(pattern, flags=0, cache_dir=None):
-    """Return (re_tree, ngroups).  Raises re.error for an invalid pattern, Unsupported for a
+    """Return (re_tree, ngroups, effective flags).  Raises re.error for an invalid pattern, Unsupported for a
     pattern outside the modelled fragment."""
     T = unicode_tables(cache_dir)
     bad = flags & ~(re.IGNORECASE | re.MULTILINE | re.DOTALL | re.UNICODE)
@@ -414,7 +414,7 @@ def translate(pattern, flags=0, cache_dir=None):
         raise Unsupported('named groups')
     tree = _conv(p, eff, T)
     wf(tree)
-    return tree, p.state.groups - 1
+    return tree, p.state.groups - 1, int(eff & (re.IGNORECASE | re.MULTILINE | re.DOTALL))
 
 
 # ---------------------------------------------------------------------------------------------
